@@ -29,6 +29,16 @@ theorem C17_write_order_partial (files files' : List (String × String)) (h : fi
   · have hp' : p ∉ files'.map (·.1) := fun h' => hp ((h.map _).mem_iff.mpr h')
     rw [get_writeAll_not_mem files fs p hp, get_writeAll_not_mem files' fs p hp']
 
+/-- what was in the output directory before does not show in the files a generation returns:
+every returned path reads back as the returned contents, whatever the directory held (the model
+of the file sink overwrites; a sink that does not truncate breaks the correspondence, trials
+C10-r2 and C17-r10) -/
+theorem C17_disk_history_indep_partial (files : List (String × String)) (hn : (files.map (·.1)).Nodup)
+    (fs fs' : FS) (p c : String) (hm : (p, c) ∈ files) :
+    (writeAll files fs).get p = some c ∧ (writeAll files fs).get p = (writeAll files fs').get p := by
+  rw [get_writeAll_mem files fs p c hn hm, get_writeAll_mem files fs' p c hn hm]
+  exact ⟨rfl, rfl⟩
+
 example : toMap [("fcp_can.h", "a"), ("fcp_uart.h", "b")] "fcp_uart.h" =
     toMap [("fcp_uart.h", "b"), ("fcp_can.h", "a")] "fcp_uart.h" := by decide
 
